@@ -194,6 +194,8 @@ Ltac tidy := repeat match goal with
   | H : true = true -> _ |- _ => specialize (H eq_refl)
   | H : false = false -> _ |- _ => specialize (H eq_refl)
   | H : false = true \/ false = true -> _ |- _ => clear H
+  | H : true = true \/ _ -> _ |- _ => specialize (H (or_introl eq_refl))
+  | H : _ \/ true = true -> _ |- _ => specialize (H (or_intror eq_refl))
   | H : _ /\ _ |- _ => destruct H
   | H : ?x = ?x |- _ => clear H
   | H : false = true |- _ => discriminate H
@@ -320,14 +322,19 @@ Ltac cs :=
       | |- context [cntp ?P _] => pose proof (proj1 (take_nth_cnt P _ _ _ _ H)) as E; revert E
       end; clear H
   end; intros;
-  rewrite ?cntp_app, ?cntp_cons, ?cntp_nil, ?app_length, ?length_filter_cntp, ?cntp_filter_same,
-          ?cntp_filter_neg, ?cntpj_filter_caller, ?cntpj_filter_notcaller, ?Nat.eqb_refl in *;
+  repeat match goal with N : ?c' <> ?c |- _ =>
+    progress (rewrite ?(cntp_filter_other c c' _ N), ?(proj2 (Nat.eqb_neq c' c) N) in * ) end;
+  repeat (progress (rewrite ?cntp_app, ?cntp_cons, ?cntp_nil, ?app_length, ?length_filter_cntp, ?cntp_filter_same,
+          ?cntp_filter_neg, ?cntpj_filter_caller, ?cntpj_filter_notcaller, ?Nat.eqb_refl in *));
+  simpl in *;
+  repeat match goal with N : ?c' <> ?c |- _ =>
+    progress (rewrite ?(proj2 (Nat.eqb_neq c' c) N) in * ) end;
   simpl in *.
 
 Ltac finB := first
   [ assumption
-  | solve [cs; tidy; unfold job_eqb, of_caller in *; simpl in *;
-           first [assumption | reflexivity
+  | solve [cs; tidy; rewrite ?cntp_nil in *; unfold job_eqb, of_caller in *; simpl in *; rewrite ?Nat.eqb_refl in *; simpl in *;
+           first [assumption | reflexivity | solve [auto 4]
                  | solve [repeat match goal with H : _ -> _ |- _ => clear H end; lia] | lia]] ].
 
 Ltac open_labelB HB HC :=
@@ -353,7 +360,11 @@ Ltac caller_goalB HB :=
   lazymatch goal with
   | |- BCaller _ _ (upd _ ?c _ c') =>
       unfold upd; destruct (Nat.eqb_spec c' c) as [->|?];
-      [ constructor; simpl; finB | callerB_other HB c' ]
+      [ lazymatch goal with
+        | Hk : callers _ c = _ |- _ => idtac
+        | |- _ => let X := fresh "X" in pose proof (HB c) as X; destruct X as [Xwg Xtok Xzero]
+        end; constructor; simpl; finB
+      | callerB_other HB c' ]
   | |- _ => callerB_other HB c'
   end.
 
@@ -369,7 +380,7 @@ Ltac job_goalB Hjob :=
   end;
   simpl in J |- *;
   try match goal with
-  | |- context [cntp (job_eqb (?c, ?b)) (filter _ (res ?s))] => pose proof (cntpc_zero_cntpj c b (res s))
+  | |- context [cntj (?c, ?b) (filter _ (res ?s))] => pose proof (cntpc_zero_cntpj c b (res s))
   end;
   finB.
 
@@ -378,4 +389,57 @@ Proof.
   intros HA [Herr HB Hjob] H. pose proof (a_caller _ _ HA) as HC. clear HA.
   destruct l; open_labelB HB HC;
   (constructor; simpl; [ finB | caller_goalB HB | job_goalB Hjob ]).
+Qed.
+
+Lemma invB_reachable cf s : reachable cf s -> InvB cf s.
+Proof.
+  induction 1; [apply invB_init|]. eapply invB_step; eauto. apply invA_reachable; assumption.
+Qed.
+
+(* ------------------------------------------------------------------ terminal states *)
+
+Lemma terminal_none cf s l : terminal cf s -> In l (all_labels cf s) -> step cf s l = None.
+Proof.
+  unfold terminal, enabled. intros H Hin.
+  destruct (step cf s l) eqn:E; [|reflexivity].
+  assert (In l (filter (fun l => is_some (step cf s l)) (all_labels cf s))) as X.
+  { apply filter_In. split; [exact Hin|]. rewrite E. reflexivity. }
+  rewrite H in X. destruct X.
+Qed.
+
+Lemma in_caller_label cf s c l : c < ncallers cf -> In l (caller_labels c) -> In l (all_labels cf s).
+Proof.
+  intros Hc Hl. unfold all_labels. apply in_or_app. left. apply in_flat_map. exists c. split; [|exact Hl].
+  apply in_seq. lia.
+Qed.
+Lemma in_global_label cf s l : In l global_labels -> In l (all_labels cf s).
+Proof. intro H. unfold all_labels. apply in_or_app. right. apply in_or_app. left. exact H. Qed.
+Lemma in_wrun_label cf s k : k < length (running s) -> In (LWRun k) (all_labels cf s).
+Proof.
+  intro H. unfold all_labels. apply in_or_app. right. apply in_or_app. right.
+  apply in_map. apply in_seq. lia.
+Qed.
+
+(* every label that can fire is listed: [enabled] is complete *)
+Lemma all_labels_complete cf s l s' : step cf s l = Some s' -> In l (all_labels cf s).
+Proof.
+  intro H.
+  destruct l;
+  try (apply in_global_label; simpl; tauto);
+  try (unfold step, wc in H; destruct (c <? ncallers cf) eqn:E; [|discriminate];
+       apply Nat.ltb_lt in E; apply (in_caller_label cf s c _ E); simpl; tauto).
+  apply in_wrun_label. simpl in H.
+  destruct (take_nth k (running s)) as [[j r]|] eqn:E; [|discriminate].
+  clear H. revert k j r E. induction (running s) as [|x t IH]; intros k j r E; simpl in E; [discriminate|].
+  destruct k; simpl; [lia|].
+  destruct (take_nth k t) as [[y t']|] eqn:E2; [|discriminate]. specialize (IH _ _ _ E2). lia.
+Qed.
+
+Lemma terminal_iff cf s : terminal cf s <-> forall l, step cf s l = None.
+Proof.
+  split.
+  - intros H l. destruct (step cf s l) eqn:E; [|reflexivity].
+    rewrite <- E. apply terminal_none; [exact H|]. eapply all_labels_complete; eauto.
+  - intro H. unfold terminal, enabled. induction (all_labels cf s) as [|l t IH]; simpl; [reflexivity|].
+    rewrite H. simpl. exact IH.
 Qed.
